@@ -207,6 +207,10 @@ func (d *DHCPv4) SerializeTo(b gopacket.SerializeBuffer, opts gopacket.Serialize
 	if err != nil {
 		return err
 	}
+	// the fixed-width address, server name and file fields are zero padded
+	for i := range data {
+		data[i] = 0
+	}
 
 	data[0] = byte(d.Operation)
 	data[1] = byte(d.HardwareType)
